@@ -57,6 +57,15 @@ CHECKS = {
     'C14': ('3/C14', 'exhaustive enumeration of configurations (incl. nested) x all 96 schemes over {0,1} + preset multiples for the predicate; datasets x 12 schemes x configurations for the behaviour',
             'The predicate must answer a bool for every configuration and scheme in all three process modes; declared relevant implies a well-formed consensus on every incomplete dataset of the block, complete datasets are never refused, and Borda / PickAPerm / BioConsert started from them refuse exactly when they declared the scheme not relevant.',
             'one ranking requested (avoids the documented optimize/all-rankings incompatibility)'),
+    'C05': ('3/C05', 'bounded-exhaustive enumeration of datasets x schemes x exact configurations x both flags x EVERY optimal vertex the solver may return, against a brute-force optimum over all rankings with ties; solver replaced by an exhaustive 0/1 enumerator (cplex stand-in, PuLP stand-in) and by real CBC',
+            'Every dataset of DS(3,2) x 16 schemes, DS(3,3), DS(4,2), DS(2,3) on fewer schemes: result score == brute-force optimum; non-optimised CPLEX model with all rankings requested returns exactly the set of minimisers; the feasible set of the unpruned ILP is in bijection with WO(U) with objective == score at every point; the selector takes CPLEX when present and falls back to the free solver (real CBC) when absent. Thorough: structured families at n=6..8 against a subset-DP oracle.',
+            'real CPLEX never run (stand-in returns exactly the optimal points); CBC trusted on <=30-variable models and cross-checked by the enumerator'),
+    'C06': ('3/C06', 'bounded-exhaustive enumeration of datasets x schemes x ParCons configurations (bounds, auxiliaries, all pivot schedules, three solver modes) against the set of ALL brute-force minimisers',
+            'parcons_partition is a partition and some minimiser respects it; the ParCons consensus respects it and reports it as weak partitioning; necessarily_optimal implies optimal for EVERY configuration; the ParCons flag equals "no component larger than the bound that cannot be all-tied at minimal cost" computed by the reference. All of DS(3,2), DS(3,3), and DS(4,2) for the partition.',
+            'stand-ins as in C05'),
+    'C07': ('3/C07', 'bounded-exhaustive enumeration of datasets x schemes against the set of ALL brute-force minimisers; exhaustive enumeration of all (ordered partition, consensus) pairs for the consistency test',
+            'For every dataset of DS(3,2) x 16 schemes, DS(3,3) x 6, DS(4,2) x 2: ParFront is a partition, a merge of consecutive ParCons groups, and every minimiser respects it; consistent_with is compared with its definition on all pairs of WO(U) x (WO(U) + rankings over sub/super/other sets), n<=4, with and without an associated dataset, under a watchdog.',
+            'malformed partitions / consensuses not covering their dataset are outside the property'),
 }
 
 PENDING = {}
